@@ -129,7 +129,14 @@ func (i *IchimokuCloud[T]) Compute(highs, lows, closings <-chan T) (<-chan T, <-
 	baseLineSplice[1] = helper.Skip(baseLineSplice[1], i.LeadingMax.IdlePeriod()-i.BaseMax.IdlePeriod())
 
 	//	Chikou Span (Lagging Span) = Closing plotted 26 days in the past.
-	laggingLine := helper.Shift(closings, i.LaggingPeriod, 0)
+	closingsSplice := helper.Duplicate(closings, 2)
+	laggingLine := helper.Shift(closingsSplice[0], i.LaggingPeriod, 0)
+
+	// The shifted stream is LaggingPeriod values longer than the input, keep one value per closing.
+	laggingLine = helper.Operate(laggingLine, closingsSplice[1], func(lagging, _ T) T {
+		return lagging
+	})
+
 	laggingLine = helper.Skip(laggingLine, i.LeadingMax.IdlePeriod())
 
 	return conversionLineSplice[1], baseLineSplice[1], leadingSpanA, leadingSpanB, laggingLine
